@@ -845,6 +845,22 @@ def rule_entries(rep, repo):
            multiplier=impl("m_merge", "add"))
   p_ = add("AveragePooling2D", "pool", (None, 8, 8, 4),
            pool_sum_accumulator=Mock("pacc", {"output": q("acc_pool")}))
+  # batch normalisation: every statistic quantized / no gamma (scale=False:
+  # a divider but no multiplier) / neither operator
+  def bn(name, with_mul, with_div):
+    lyr = add("QBatchNormalization", name, (None, 8),
+              gamma_quantizer=q("g_" + name) if with_mul else None,
+              beta_quantizer=q("be_" + name), mean_quantizer=q("m_" + name),
+              variance_quantizer=q("v_" + name),
+              internal_divide_quantizer=impl("div_" + name, "shifter")
+              if with_div else None,
+              internal_multiplier=impl("mul_" + name, "mul")
+              if with_mul else None)
+    lyr.attrs["get_weights"] = lambda pe, a, k: [[1, 2, 3, 4, 5]] * 4
+    return lyr
+  bn("bn", True, True)
+  bn("bn_noscale", False, True)
+  bn("bn_plain", False, False)
   layer_map = {"output_layers": [p_], "input_layers": [d],
                "layer_data_type_map": lm}
   model = Mock("model", {"layers": layers + [L("Flatten", "not_in_map",
@@ -902,6 +918,33 @@ def rule_entries(rep, repo):
           "parameters": None,
           "op_cost": 2 * N("cnt_merge") * N("gf_m_merge") * OPc(
               "fpm_add", "gb_m_merge")},
+      "bn": {
+          "inputs": RD(False, (None, 8), "dram", "bin0_bn"),
+          "outputs": WR(False, (None, 7, "bn"), "dram", "bout_bn"),
+          "parameters": RD(False, 5, "sram", "bg_bn", False) +
+                        RD(False, 5, "sram", "bbe_bn", False) +
+                        RD(False, 5, "sram", "bm_bn", False) +
+                        RD(False, 5, "sram", "bv_bn", False),
+          "op_cost": N("cnt_bn") * (
+              N("gf_div_bn") * OPc("fpm_shifter", "gb_div_bn") +
+              N("gf_mul_bn") * OPc("fpm_mul", "gb_mul_bn"))},
+      "bn_noscale": {
+          "inputs": RD(False, (None, 8), "dram", "bin0_bn_noscale"),
+          "outputs": WR(False, (None, 7, "bn_noscale"), "dram",
+                        "bout_bn_noscale"),
+          "parameters": RD(False, 5, "sram", "bbe_bn_noscale", False) +
+                        RD(False, 5, "sram", "bm_bn_noscale", False) +
+                        RD(False, 5, "sram", "bv_bn_noscale", False),
+          "op_cost": N("cnt_bn_noscale") * N("gf_div_bn_noscale") * OPc(
+              "fpm_shifter", "gb_div_bn_noscale")},
+      "bn_plain": {
+          "inputs": RD(False, (None, 8), "dram", "bin0_bn_plain"),
+          "outputs": WR(False, (None, 7, "bn_plain"), "dram",
+                        "bout_bn_plain"),
+          "parameters": RD(False, 5, "sram", "bbe_bn_plain", False) +
+                        RD(False, 5, "sram", "bm_bn_plain", False) +
+                        RD(False, 5, "sram", "bv_bn_plain", False),
+          "op_cost": NF.const(0)},
       "pool": {
           "inputs": RD(False, (None, 8, 8, 4), "dram", "bin0_pool"),
           "outputs": WR(True, (None, 7, "pool"), "dram", "bout_pool"),
